@@ -3,7 +3,7 @@ CONSTANTS
   W = 3
   MaxLen = 3
   Words3 = {0, 1, 2, 3, 4, 5, 6, 7}
-  MixWords = {0, 1, 2, 5, 6, 7}
+  MixWords = {0, 2, 5, 6, 7}
   RecLen = 2
   GeomLen = 3
   Kinds = {"refs", "lls", "mixed", "bits", "tags", "members", "geom", "plh", "commonpoint", "fullpoint", "path", "area", "relation"}
